@@ -48,8 +48,8 @@ CHECKS = {
  "C14": ("fault_enumeration", "exhaustive enumeration of failing sink writes (4 failure modes per write index) and failing/short/long attachment sources",
          "Every sink write of every enumerated (workload, configuration) is failed in four ways; the call that hit it must report an error and accepted bytes stay a prefix.",
          "Sinks honour the io.Writer contract; write pattern deterministic (checked).", "3/C14"),
- "C15": ("fault_enumeration", "exhaustive injection of a read error at every byte position (sticky and once), failing seeks, and five delivery schedules, over seven reader configurations",
-         "Every byte position of every enumerated file x 2 fault modes x 7 readers.",
+ "C15": ("fault_enumeration", "exhaustive injection of a read error at every byte position (sticky and once), failing seeks, and five delivery schedules, over eight reader configurations",
+         "Every byte position of every enumerated file x 2 fault modes x 8 readers.",
          "'Clean EOF' = errors.Is(err, io.EOF).", "3/C15"),
  "C16": ("exploration", "differential monitor across implementations: Go writer -> Python readers and Python writer -> Go readers, compared with the call log",
          "Files exchanged in both directions through /verif/py/interop.py running the repository's Python library.",
